@@ -91,6 +91,14 @@ theorem error_channels_have_a_slot_per_writer :
     Skel.chanCap "notFoundErrs" skel_app_responseHandler = some 2 ∧
     Skel.count (.wait "wg") skel_app_postResponse = 1 := by decide
 
+/-- regenerated fact: `blob.read` concatenates the parts in the order the blob lists them, which is the order
+    `writeBlobParts` named them in (index order) - `blob_roundtrip` is about exactly that order.  (Ordering the
+    names as strings instead would put "part10" before "part2": wrong from the eleventh part on.) -/
+theorem read_keeps_part_order : store_readKeepsStoredPartOrder = true := by decide
+
+/-- why string order is not index order: the decimal names of 2 and 10 -/
+example : decide (("part10" : String) < "part2") = true := by decide
+
 theorem limits : store_fieldByteLimit = 1000000 ∧ cache_cacheEntrySizeLimit = 1000000 := by decide
 
 end InvProxy.C19
